@@ -55,6 +55,34 @@ Theorem cache_transparent : forall H content_of ign f es,
   fst (hash_cached H ign f es) = hash_dir H ign es.
 Proof. exact cache_transparent_proof. Qed.
 
+(* ---- ... the cache file left behind is truthful again (so the premise of
+   cache_transparent is re-established for the next run) ... *)
+Theorem cache_file_truthful : forall H, (forall x, length (H x) = 20%nat) ->
+  forall content_of ign f es,
+  file_ok H content_of f -> consistent content_of es -> named es -> packable es ->
+  file_ok H content_of (next_file f (snd (hash_cached H ign f es))).
+Proof. exact cache_file_truthful_proof. Qed.
+
+(* ---- ... hence for every history of states of the tree, each hashed with the
+   cache.bin left by the runs before it (starting from any truthful file or
+   none), every cached hash equals the uncached hash.  This includes the byte
+   level of cache.bin: what __writeEntry writes after the copied prefix is read
+   back by __readEntry as the same records. *)
+Theorem cache_transparent_history : forall H, (forall x, length (H x) = 20%nat) ->
+  forall content_of ign ts f,
+  file_ok H content_of f ->
+  Forall (fun es => consistent content_of es /\ named es /\ packable es) ts ->
+  run_history H ign f ts = map (hash_dir H ign) ts.
+Proof. exact cache_transparent_history_proof. Qed.
+
+(* ---- a sorted cache file stays sorted (what makes the merge walk effective
+   from run to run; not needed for correctness, see cache_transparent). *)
+Theorem index_sorted_preserved : forall H, (forall x, length (H x) = 20%nat) ->
+  forall ign f es,
+  listing es -> packable es -> file_sorted f ->
+  file_sorted (next_file f (snd (hash_cached H ign f es))).
+Proof. exact index_sorted_preserved_proof. Qed.
+
 (* ================================================================== non-vacuity *)
 
 Example hash_dir_canon_nonvacuous :
@@ -82,6 +110,13 @@ Example hash_dir_injective_needs_nul_free_names :
   canon [] ex_amb1 <> canon [] ex_amb2 /\ In 0 ex_nul_name.
 Proof. repeat split; vm_compute; try congruence. do 3 right. left. reflexivity. Qed.
 
+(* ... and so is the bound on the mode *)
+Example hash_dir_injective_needs_mode_range :
+  hash_dir H_toy [] ex_mode1 = hash_dir H_toy [] ex_mode2 /\
+  hashed_dir H_toy [] ex_mode1 = hashed_dir H_toy [] ex_mode2 /\
+  canon [] ex_mode1 <> canon [] ex_mode2.
+Proof. repeat split; vm_compute; congruence. Qed.
+
 Example dfs_order_sorted_nonvacuous :
   listing ex_tree2 /\
   check_sequence H_toy IGNORE_DIRS ex_tree2 = [[97;46;98]; [97;47;108]; [97;47;120]; [98]; [99]].
@@ -107,4 +142,41 @@ Proof.
   - vm_compute. discriminate.
   - vm_compute. reflexivity.
   - vm_compute. reflexivity.
+Qed.
+
+Example cache_transparent_history_nonvacuous :
+  Forall (fun es => consistent ex_content_of es /\ named es /\ packable es) [ex_tree1; ex_tree2; ex_tree2] /\
+  run_history H_toy IGNORE_DIRS None [ex_tree1; ex_tree2; ex_tree2] =
+    map (hash_dir H_toy IGNORE_DIRS) [ex_tree1; ex_tree2; ex_tree2] /\
+  names_in_file (next_file ex_cache1 (snd (hash_cached H_toy IGNORE_DIRS ex_cache1 ex_tree2))) =
+    [[97;46;98]; [97;47;108]; [97;47;120]; [98]; [99]].
+Proof.
+  split; [|split; vm_compute; reflexivity].
+  repeat constructor; try (vm_compute; repeat split; congruence).
+Qed.
+
+(* Not claimed, and false: "records of unchanged files survive a rewrite".  With
+   a, b, c cached and b deleted, d created, the rewrite starts at the last
+   record read (c): the stale b stays, the valid c is dropped (it is re-hashed
+   next time).  A performance wart only: the hashes are still right. *)
+Example index_keeps_valid_records_refuted :
+  names_in_file ex_cache_abc = [[97]; [98]; [99]] /\
+  check_events (snd (hash_cached_traced H_toy IGNORE_DIRS ex_cache_abc ex_acd)) =
+    [([97], true); ([99], true); ([100], false)] /\
+  names_in_file (snd (hash_cached H_toy IGNORE_DIRS ex_cache_abc ex_acd)) = [[97]; [98]; [100]] /\
+  fst (hash_cached H_toy IGNORE_DIRS ex_cache_abc ex_acd) = hash_dir H_toy IGNORE_DIRS ex_acd.
+Proof. repeat split; vm_compute; reflexivity. Qed.
+
+Example index_sorted_preserved_nonvacuous :
+  listing ex_acd /\ packable ex_acd /\ file_sorted ex_cache_abc /\ ex_cache_abc <> None /\
+  snd (hash_cached H_toy IGNORE_DIRS ex_cache_abc ex_acd) <> None.
+Proof.
+  split; [|split; [|split; [|split]]].
+  - unfold listing, ex_acd, node_listing; simpl; unfold node_listing; simpl.
+    repeat split; try discriminate; try (repeat constructor; simpl; intuition discriminate);
+      unfold SLASH; simpl; intuition discriminate.
+  - vm_compute. repeat split.
+  - unfold file_sorted. vm_compute. repeat constructor.
+  - vm_compute. discriminate.
+  - vm_compute. discriminate.
 Qed.
